@@ -141,18 +141,23 @@ def byteValueFromString (s : Bytes) : Option Bytes :=
 
 /-! ## dates -/
 
-/-- `fmt.Sprintf("%4d", v)`: right-justified in width 4 with spaces -/
-def fmtPad4 (v : Int) : Bytes :=
-  let d := fmtInt v
-  List.replicate (4 - d.length) 0x20 ++ d
+/-- `fmt.Sprintf("%04d", v)`: zero-padded to width 4, the sign counts towards the width
+(`-5` ↦ `-005`) -/
+def fmtZero4 (v : Int) : Bytes :=
+  if v < 0 then
+    let d := fmtNat v.natAbs
+    0x2D :: (List.replicate (3 - d.length) 0x30 ++ d)
+  else
+    let d := fmtNat v.toNat
+    List.replicate (4 - d.length) 0x30 ++ d
 
 /-- `fmt.Sprintf("%02d", v)`: zero-padded to width 2, the sign counts towards the width -/
 def fmtZero2 (v : Int) : Bytes :=
   if 0 ≤ v ∧ v < 10 then 0x30 :: fmtInt v else fmtInt v
 
-/-- `Date.DateString()` = `fmt.Sprintf("%4d-%02d-%02d", y, m, d)` -/
+/-- `Date.DateString()` = `fmt.Sprintf("%04d-%02d-%02d", y, m, d)` -/
 def dateString (y m d : Int) : Bytes :=
-  fmtPad4 y ++ [0x2D] ++ fmtZero2 m ++ [0x2D] ++ fmtZero2 d
+  fmtZero4 y ++ [0x2D] ++ fmtZero2 m ++ [0x2D] ++ fmtZero2 d
 
 /-- `strings.Split(s, "-")` -/
 def splitDash : Bytes → List Bytes
@@ -162,12 +167,27 @@ def splitDash : Bytes → List Bytes
     | [] => [[]]   -- unreachable: `splitDash` never returns `[]`
     | h :: t => if c = 0x2D then [] :: h :: t else (c :: h) :: t
 
-/-- `DateFromString`: three `-`-separated `Atoi`s, each truncated to `int32` -/
+/-- Go's `isLeap` (proleptic Gregorian; `%` truncates towards zero, which does not matter for
+divisibility) -/
+def isLeapYear (y : Int) : Bool := y % 4 == 0 && (y % 100 != 0 || y % 400 == 0)
+
+/-- number of days of a month, `1 ≤ m ≤ 12` -/
+def daysInMonth (y m : Int) : Int :=
+  if m = 2 then (if isLeapYear y then 29 else 28)
+  else if m = 4 ∨ m = 6 ∨ m = 9 ∨ m = 11 then 30
+  else 31
+
+/-- `DateFromString`: three `-`-separated `Atoi`s; the year must fit `int32`, the month is 1–12,
+the day 1–31 and `time.Date(y, m, d).Day() == d`, i.e. the day exists in that month. -/
 def dateFromString (s : Bytes) : Option (Int × Int × Int) :=
   match splitDash s with
   | [a, b, c] =>
     match parseInt a 64, parseInt b 64, parseInt c 64 with
-    | some y, some m, some d => some (wrapInt32 y, wrapInt32 m, wrapInt32 d)
+    | some y, some m, some d =>
+      if y < -2147483648 ∨ y > 2147483647 then none
+      else if m < 1 ∨ m > 12 ∨ d < 1 ∨ d > 31 then none
+      else if d > daysInMonth y m then none
+      else some (y, m, d)
     | _, _, _ => none
   | _ => none
 
@@ -184,6 +204,13 @@ def optionByName (pfx : Bytes) (opts : List (Bytes × Int)) (name : Bytes) : Opt
   let short := trimPrefix name pfx
   (opts.find? fun o => o.1 == short).map (·.2)
 
+/-- `enumOptionByName` (`lib/j5reflect/type_enum.go`): the name as written first, then with the
+enum's prefix removed -/
+def enumOptionByName (pfx : Bytes) (opts : List (Bytes × Int)) (name : Bytes) : Option Int :=
+  match opts.find? fun o => o.1 == name with
+  | some o => some o.2
+  | none => optionByName pfx opts name
+
 /-- `EnumSchema.OptionByNumber` -/
 def optionByNumber (opts : List (Bytes × Int)) (n : Int) : Option Bytes :=
   (opts.find? fun o => o.2 == n).map (·.1)
@@ -196,7 +223,7 @@ structure Oracle where
   /-- `strconv.FormatFloat(float64(v), 'g', -1, 32)` of the float32 with these bits -/
   fmtF32 : Nat → Bytes
   /-- `strconv.ParseFloat(text, 64)`: float64 bits and the bits of `float32(v)`, or `none` for the
-  latter when `v > MaxFloat32 || v < -MaxFloat32` -/
+  latter when `v` is finite and `float32(v)` overflows to ±Inf -/
   parseFloat : Bytes → Option (Nat × Option Nat)
   /-- `time.Unix(secs, nanos).In(time.UTC).Format(time.RFC3339Nano)` -/
   fmtTime : Int → Int → Bytes
@@ -217,6 +244,14 @@ inductive ScalarOut where
   | bare (text : Bytes)
   deriving Repr, DecidableEq
 
+/-- `addFloat`: NaN, +Inf and -Inf are written as the quoted strings protojson uses; finite values
+as the bare `strconv.FormatFloat(v, 'g', -1, bits)` text -/
+def nonFinite (neg expAllOnes mantZero : Bool) (text : Bytes) : ScalarOut :=
+  if expAllOnes then
+    (if mantZero then (if neg then .quoted (ascii "-Infinity") else .quoted (ascii "Infinity"))
+     else .quoted (ascii "NaN"))
+  else .bare text
+
 /-- `scalarGoFromReflect` followed by the `encodeScalarField` switch. The proto kind of the stored
 value is fixed by the descriptor; a value of the wrong shape cannot occur in a real message and
 is an error here. -/
@@ -229,8 +264,8 @@ def encodeScalar (O : Oracle) (k : ScalarKind) (v : PVal) : Outcome ScalarOut :=
   | .uint32, .uint n => .ok (.bare (fmtNat n))
   | .int64, .int i => .ok (.quoted (fmtInt i))
   | .uint64, .uint n => .ok (.quoted (fmtNat n))
-  | .float32, .f32 b => .ok (.bare (O.fmtF32 b))
-  | .float64, .f64 b => .ok (.bare (O.fmtF64 b))
+  | .float32, .f32 b => .ok (nonFinite (b / 2 ^ 31 % 2 = 1) (b / 2 ^ 23 % 256 = 255) (b % 2 ^ 23 = 0) (O.fmtF32 b))
+  | .float64, .f64 b => .ok (nonFinite (b / 2 ^ 63 % 2 = 1) (b / 2 ^ 52 % 2048 = 2047) (b % 2 ^ 52 = 0) (O.fmtF64 b))
   | .bytes, .bytes s => .ok (.quoted (b64Encode s))
   | .date, .date y m d => .ok (.quoted (dateString y m d))
   | .decimal, .dec s => .ok (.quoted s)
@@ -269,7 +304,7 @@ def decodeScalar (O : Oracle) (k : ScalarKind) (t : GoTok) : Outcome (Option PVa
       | some v => if v > 2147483647 ∨ v < -2147483648 then .err "out of range" else .ok (some (.int v))
     | .str s =>
       match parseInt s 32 with
-      | none => .ok none
+      | none => .err "strconv.ParseInt"
       | some v => .ok (some (.int v))
     | _ => .err "expected int"
   | .int64 =>
@@ -280,7 +315,7 @@ def decodeScalar (O : Oracle) (k : ScalarKind) (t : GoTok) : Outcome (Option PVa
       | some v => .ok (some (.int v))
     | .str s =>
       match parseInt s 64 with
-      | none => .ok none
+      | none => .err "strconv.ParseInt"
       | some v => .ok (some (.int v))
     | _ => .err "expected int"
   | .uint32 =>
@@ -291,18 +326,18 @@ def decodeScalar (O : Oracle) (k : ScalarKind) (t : GoTok) : Outcome (Option PVa
       | some v => if v < 0 ∨ v > 4294967295 then .err "out of range" else .ok (some (.uint v.toNat))
     | .str s =>
       match parseUint s 32 with
-      | none => .ok none
+      | none => .err "strconv.ParseUint"
       | some v => .ok (some (.uint v))
     | _ => .err "expected uint32"
   | .uint64 =>
     match t with
     | .num text =>
-      match parseInt text 64 with
-      | none => .err "json.Number.Int64"
-      | some v => if v < 0 then .err "out of range" else .ok (some (.uint v.toNat))
+      match parseUint text 64 with
+      | none => .err "strconv.ParseUint"
+      | some v => .ok (some (.uint v))
     | .str s =>
       match parseUint s 64 with
-      | none => .ok none
+      | none => .err "strconv.ParseUint"
       | some v => .ok (some (.uint v))
     | _ => .err "expected uint64"
   | .float32 =>
@@ -343,12 +378,16 @@ def decodeScalar (O : Oracle) (k : ScalarKind) (t : GoTok) : Outcome (Option PVa
       | none => .err "time.Parse"
     | _ => .err "expected timestamp"
   | .decimal =>
-    match t with
-    | .str s =>
+    let text : Option Bytes := match t with
+      | .str s => some s
+      | .num x => some x
+      | _ => none
+    match text with
+    | none => .err "expected decimal"
+    | some s =>
       match O.parseDec s with
       | some norm => .ok (some (.dec norm))
       | none => .err "decimal.NewFromString"
-    | _ => .err "expected decimal"
   | .date =>
     match t with
     | .str s =>
